@@ -1,7 +1,7 @@
 #!/bin/sh
 # usage: tools_keep.sh <Cxx> <name> "<checks that caught it>" : confirm a seeded change and store it under seeded/<name>
 ID=$1; NAME=$2; CAUGHT=$3
-WT=/tmp/mut/$ID
+WT=${MUTROOT:-/tmp/mut2}/$ID
 set -e
 mkdir -p seeded/$NAME
 git -C $WT diff -- src > seeded/$NAME/patch.diff
